@@ -194,6 +194,37 @@ def selectAdapterProxy {H : Type} (directProxy : Bool) (nActiveEp nActiveEpf : N
     | .modHash => Route.ofSel directProxy (modHash msg.hashCode)
     | .roundRobin => Route.ofSel directProxy roundRobin
 
+/-! ## Weight type in force (`endpointManager.updateActiveEp`, `enableWeight`)
+
+The manager builds its three selectors with `enableWeight() = (e.weightType == EStaticWeight)`.
+`updateActiveEp(newEps)` decides `e.weightType` from the `WeightType` fields of the NEW list. -/
+
+/-- the loop `sameType, lastType := true, newEps[0].WeightType; for … { if ep.WeightType != lastType { sameType = false } }` -/
+def sameTypeLoop (lastType : Int) : List Int → Bool → Bool
+  | [], same => same
+  | t :: ts, same => sameTypeLoop lastType ts (if t ≠ lastType then false else same)
+
+/-- the part of `(*endpointManager).updateActiveEp` that sets `e.weightType`, literally: early
+    return on an empty list (nothing changes); otherwise `e.weightType = endpoint.ELoop`
+    unconditionally, then `if sameType { e.weightType = lastType }`.  `prev` is the value the field
+    had before the call; `types` are the `WeightType`s of `newEps` in order. -/
+def updateWeightType (prev : Int) (types : List Int) : Int :=
+  match types with
+  | [] => prev
+  | lastType :: _ =>
+    let sameType := sameTypeLoop lastType types true
+    let wt : Int := (Consts.conHashWtELoop : Int)
+    if sameType then lastType else wt
+
+/-- `(*endpointManager).enableWeight` -/
+def enableWeight (weightType : Int) : Bool := weightType == (Consts.conHashWtEStaticWeight : Int)
+
+/-- SPECIFICATION: the weight type a set of endpoints puts in force — their common type, plain
+    rotation when they differ.  A function of the list alone. -/
+def effectiveWeightType : List Int → Int
+  | [] => (Consts.conHashWtELoop : Int)
+  | t :: ts => if ts.all (· == t) then t else (Consts.conHashWtELoop : Int)
+
 /-! ## `tars/hash_func.go` (strings are given as their runes, as `for _, c := range str` yields them) -/
 
 def u32 (n : Nat) : Nat := n % 4294967296
